@@ -360,15 +360,18 @@ where
                 .unknown_source()
         })?;
 
-        if max_cycles < cycles {
-            return Err(ScriptError::ExceededMaximumCycles(max_cycles)
-                .source(current_group)
-                .into());
-        }
+        // The suspended script group has already consumed cycles in the previous
+        // chunks, they are kept in the suspended state. The limit passed to the
+        // resumed run is relative to that run, so those cycles must be deducted
+        // as well, otherwise the group could spend them a second time.
+        let suspended_cycles = snap.state.as_ref().map_or(0, |state| state.total_cycles);
+        let remain_cycles = max_cycles
+            .checked_sub(cycles)
+            .and_then(|remain| remain.checked_sub(suspended_cycles))
+            .ok_or_else(|| ScriptError::ExceededMaximumCycles(max_cycles).source(current_group))?;
 
         // continue snapshot current script
-        // max_cycles - cycles checked
-        match self.verify_group_with_chunk(current_group, max_cycles - cycles, &snap.state) {
+        match self.verify_group_with_chunk(current_group, remain_cycles, &snap.state) {
             Ok(ChunkState::Completed(used_cycles, _consumed_cycles)) => {
                 cycles = wrapping_cycles_add(cycles, used_cycles, current_group)?;
             }
